@@ -58,6 +58,8 @@ type vpSigned struct {
 
 // vpWorld is everything around the State under test.
 type vpWorld struct {
+	walUnsynced   bool  // something was handed to the WAL and not yet flushed and synced
+	pcWaitRound   int32 // ghost: the round for which the latest precommit-wait timeout was scheduled (-1 none)
 	lastVoteRound int32 // the vote event applied in this step
 	lastVoteType  int
 	slice         int               // which part of the pre-state / event space this entry covers (vpSlice*)
@@ -122,11 +124,26 @@ func (w *vpWorld) idOf(code int8) types.BlockID {
 
 type vpTicker struct{ w *vpWorld }
 
-func (t *vpTicker) Start() error                   { return nil }
-func (t *vpTicker) Stop() error                    { return nil }
-func (t *vpTicker) Chan() <-chan timeoutInfo       { return nil }
-func (t *vpTicker) SetLogger(log.Logger)           {}
-func (t *vpTicker) ScheduleTimeout(ti timeoutInfo) { t.w.timeouts = append(t.w.timeouts, ti) }
+func (t *vpTicker) Start() error             { return nil }
+func (t *vpTicker) Stop() error              { return nil }
+func (t *vpTicker) Chan() <-chan timeoutInfo { return nil }
+func (t *vpTicker) SetLogger(log.Logger)     {}
+func (t *vpTicker) ScheduleTimeout(ti timeoutInfo) {
+	t.w.timeouts = append(t.w.timeouts, ti)
+	if ti.Step == cstypes.RoundStepPrecommitWait {
+		t.w.pcWaitRound = ti.Round
+	}
+}
+
+// vpWAL records whether everything handed to the WAL so far has been flushed and synced.
+type vpWAL struct {
+	nilWAL
+	w *vpWorld
+}
+
+func (l *vpWAL) Write(m WALMessage) error     { l.w.walUnsynced = true; return nil }
+func (l *vpWAL) WriteSync(m WALMessage) error { l.w.walUnsynced = false; return nil }
+func (l *vpWAL) FlushAndSync() error          { l.w.walUnsynced = false; return nil }
 
 type vpBlockStoreStub struct {
 	w      *vpWorld
@@ -173,6 +190,7 @@ func (s *vpSigner) GetPubKey() (crypto.PubKey, error) { return s.key.PubKey(), n
 func (s *vpSigner) SignVote(chainID string, v *tmproto.Vote) error {
 	w := s.w
 	cs := w.cs
+	vp.Assert(!w.walUnsynced, "C04.wal.everything-received-is-durable-before-a-vote-is-signed")
 	vp.Assert(v.Height == cs.Height, "C02.sign.vote-is-for-the-current-height")
 	r := v.Round
 	vp.Assert(r >= 0 && int(r) <= w.R+1, "C02.sign.vote-round-in-range")
@@ -224,6 +242,7 @@ func (s *vpSigner) SignProposal(chainID string, p *tmproto.Proposal) error {
 	w := s.w
 	cs := w.cs
 	vp.Reach("proposal-signed")
+	vp.Assert(!w.walUnsynced, "C04.wal.everything-received-is-durable-before-a-proposal-is-signed")
 	r := p.Round
 	vp.Assert(p.Height == cs.Height && r >= 0 && int(r) <= w.R+1, "C02.sign.proposal-for-current-height-and-a-round-in-range")
 	vp.Assert(w.prop[r] == cNone, "C02.L4.at-most-one-proposal-per-round")
@@ -289,6 +308,7 @@ func vpNewWorld(R int, ourIdx int) *vpWorld {
 	config := cfg.DefaultConsensusConfig()
 	cs := NewState(config, state, blockExec, &vpBlockStoreStub{w: w}, nil, sm.EmptyEvidencePool{})
 	cs.timeoutTicker = &vpTicker{w: w}
+	cs.wal = &vpWAL{w: w}
 	cs.SetEventBus(types.NewEventBus()) // never started: publishing is stubbed out
 	if ourIdx < 4 {
 		cs.SetPrivValidator(&vpSigner{w: w, key: w.keys[ourIdx]})
@@ -443,6 +463,8 @@ func (w *vpWorld) symbolicPreState() {
 	cs.CommitRound = vp.Int32("CommitRound")
 	vp.Assume(vp.And(cs.LockedRound >= -1, cs.LockedRound <= R, cs.ValidRound >= -1, cs.ValidRound <= R, cs.CommitRound >= -1, cs.CommitRound <= R+1))
 	cs.TriggeredTimeoutPrecommit = vp.Bool("TriggeredTimeoutPrecommit")
+	w.pcWaitRound = vp.Int32("precommit-wait-scheduled-for-round")
+	vp.Assume(vp.And(w.pcWaitRound >= -1, w.pcWaitRound <= cs.Round))
 	pick := func(name string, opts []int8) int8 { return opts[vp.Choice(name, len(opts))] }
 	lbOpts, vbOpts, pbOpts, partsOpts := []int8{cNone, cA}, []int8{cNone, cA, cB}, []int8{cNone, cA, cB, cC}, 3
 	switch w.slice {
@@ -662,6 +684,10 @@ func (w *vpWorld) invParts() ([]bool, []string) {
 	}
 	label = "new-height-is-round-0"
 	add(vp.Implies(cs.Step == cstypes.RoundStepNewHeight, cs.Round == 0))
+	label = "precommit-wait-flag-only-while-its-timeout-is-pending"
+	// (C03: the flag suppresses a second precommit-wait timeout in the same round; if it were set for a
+	// round whose timeout was never scheduled, the node would sit in that round's precommit step for ever)
+	add(vp.Implies(cs.TriggeredTimeoutPrecommit, w.pcWaitRound == cs.Round))
 	return cj, labels
 }
 
@@ -672,6 +698,9 @@ func (w *vpWorld) pickBlock(name string, opts []int8) int8 { return opts[vp.Choi
 // applyEvent feeds one arbitrary input to the state machine.
 func (w *vpWorld) applyEvent(kind int) string {
 	cs := w.cs
+	// the receive routine hands every input to the WAL before it is processed; peer messages and
+	// timeouts are written without a sync
+	w.walUnsynced = true
 	R := int32(w.R)
 	switch kind {
 	case 0: // a vote from a peer (or our own, coming back through the internal queue)
